@@ -93,7 +93,7 @@ PROPS = {
                         "HierarchicalIterator.findNextUniqueKey",
                         "an SSTable reads back what was written (C11): tables are modelled by their logical entries"],
         "partial": "concurrent clause: proved for the model of memtable snapshot filter + append-only entry lists + immutable "
-                   "SSTables (iterators keep their own source list); real interleavings are sampled. BoundedIterator.SeekToLast "
-                   "is modelled as it has to behave (repair of D24 under way).",
+                   "SSTables (iterators keep their own source list; each iterator call atomic with respect to writer steps); "
+                   "real interleavings are sampled.",
     },
 }
